@@ -33,6 +33,8 @@ func NewTimerRegistry(store *TimerStore, srIDs []string) *TimerRegistry {
 	return &TimerRegistry{
 		upstreams: upstreams,
 		store:     store,
+		// Until upstreams report, the composite watermark is the epoch they start at.
+		watermark: time.Unix(0, 0),
 	}
 }
 
